@@ -467,7 +467,7 @@ static bool dispatch(std::string const& op, Toks& in, Out& impl, Out& ref);
 
 // Crash budget: every crashing case costs a re-fork of the (sanitized) child.  A change that makes
 // thousands of cases crash would otherwise take hours; after 40 crashed cases the remaining ones are
-// answered with a distinguished token (which still disagrees with the model, so the run still fails).
+// skipped (the 40 crash outcomes already disagree with model and reference, so the run fails anyway).
 // The counters live in a shared page created before main() and inherited by every child.
 struct CrashBudget {
     volatile unsigned long started;
@@ -485,7 +485,7 @@ bool vh::run_case(std::string const& op, Toks& in, Out& impl, Out& ref)
     static bool const once = (std::setlocale(LC_ALL, "C"), true);
     (void)once;
     if (g_budget->started - g_budget->finished > 40) {
-        impl.tok("skipped-after-40-crashes");
+        impl.tok("skip"); // the engine ignores a case whose impl leg is "skip"; the 40 crashes already fail the run
         return true;
     }
     g_budget->started = g_budget->started + 1;
